@@ -242,6 +242,7 @@ struct Peek {   // records the handle, does not suspend
 static async<void> hop_coro(Rec *r) {
     bool ok = false;
     try {
+        t_pending = r;   // (a coroutine started from a coroutine job is deferred by the ready queue)
         co_await *g_pool;
         ok = true;
     } catch (const await_canceled_exception &) {
@@ -308,7 +309,6 @@ static void submit(Rec *r) {
         }
         case 5: r->fut.reset(new future<int>(g_pool->run(async_job(Guard(r))))); break;
     }
-    t_pending = nullptr;
 }
 
 static long fut_state(std::unique_ptr<future<int>> &f) {
